@@ -131,6 +131,7 @@ func genFor(prop, tier string, seed int64, phase string) {
 		runGenerated(tier, seed)
 	case "C03":
 		runLongSweeps(tier, seed)
+		runFingerprintCollisions(seed)
 		runUniform(seed, all10, "uniform")
 		runWhitespaceMix(seed, map[string]int{"quick": 400, "thorough": 6000}[tier], []int64{0, 1, 2, 3, 4, 5, 6, 7, 8, 9})
 		if q {
